@@ -22,7 +22,7 @@ theorem offsets_range (f : Nat → Note) (n : Nat) :
   rfl
 
 section accepted
-variable {nb B v0 : Int} {st : AnState} (acc : Accepted nb B st)
+variable {nb B v0 : Int} {strict : Bool} {st : AnState} (acc : Accepted nb B strict st)
 include acc
 
 theorem Accepted.estar_ons {R : Rat → Rat} (c : RenderCfg) (S : Int) :
@@ -142,12 +142,13 @@ end accepted
 
 /-! ### from the decidable predicate to `Accepted` -/
 
-theorem accepted_of_canonical (nb ms : Int) (evs : List PEvent) (h : CanonicalPerf nb ms evs) :
+theorem accepted_of_canonicalB (nb ms : Int) (strict : Bool) (evs : List PEvent)
+    (h : CanonicalPerfB nb ms strict evs = true) :
     1 ≤ ms ∧ (∀ x ∈ evs, x.valid = true) ∧ emit nb ms 0 0 (stream 0 0 evs) = evs ∧
-      Accepted nb (shiftSum evs + 1) (annotate (stream 0 0 evs)) := by
-  unfold CanonicalPerf CanonicalPerfB streamOk at h
+      Accepted nb (shiftSum evs + 1) strict (annotate (stream 0 0 evs)) := by
+  unfold CanonicalPerfB streamOk at h
   simp only [Bool.and_eq_true, decide_eq_true_eq, List.all_eq_true, Bool.or_eq_true, beq_iff_eq,
-    List.isEmpty_iff, ↓reduceIte, Bool.not_eq_true'] at h
+    List.isEmpty_iff, Bool.not_eq_true'] at h
   obtain ⟨⟨⟨hms, hvalid⟩, hlay⟩, ⟨⟨⟨⟨⟨hok, hclosed⟩, hsorted⟩, hons⟩, hpos⟩, hbins⟩⟩ := h
   refine ⟨hms, hvalid, hlay, ?_⟩
   have hst := annotate_inv (stream 0 0 evs)
@@ -173,9 +174,10 @@ theorem accepted_of_canonical (nb ms : Int) (evs : List PEvent) (h : CanonicalPe
     omega
 
 /-- a canonical event list renders without error: one note per NOTE_OFF, in NOTE_OFF order -/
-theorem decodeEvents_canonical (nb ms v0 : Int) (evs : List PEvent) (hcanon : CanonicalPerf nb ms evs) :
+theorem decodeEvents_canonicalB (nb ms v0 : Int) (strict : Bool) (evs : List PEvent)
+    (hcanon : CanonicalPerfB nb ms strict evs = true) :
     decodeEvents nb v0 evs = .ok ((annotate (stream 0 0 evs)).offs.map (noteOfOff nb v0)) := by
-  obtain ⟨_, hvalid, hlay, acc⟩ := accepted_of_canonical nb ms evs hcanon
+  obtain ⟨_, hvalid, hlay, acc⟩ := accepted_of_canonicalB nb ms strict evs hcanon
   have hkinds : ∀ x ∈ evs, (∀ v, x ≠ PEvent.duration v) ∧ (nb = 0 → ∀ b, x ≠ PEvent.velocity b) := by
     intro x hx
     rw [← hlay] at hx
@@ -183,19 +185,27 @@ theorem decodeEvents_canonical (nb ms v0 : Int) (evs : List PEvent) (hcanon : Ca
   exact decodeEvents_annot nb v0 evs hvalid (fun x hx => (hkinds x hx).1)
     (fun h0 x hx => (hkinds x hx).2 h0) acc.ok acc.closed acc.pos
 
+theorem accepted_of_canonical (nb ms : Int) (evs : List PEvent) (h : CanonicalPerf nb ms evs) :
+    1 ≤ ms ∧ (∀ x ∈ evs, x.valid = true) ∧ emit nb ms 0 0 (stream 0 0 evs) = evs ∧
+      Accepted nb (shiftSum evs + 1) true (annotate (stream 0 0 evs)) := accepted_of_canonicalB nb ms true evs h
+
+theorem decodeEvents_canonical (nb ms v0 : Int) (evs : List PEvent) (hcanon : CanonicalPerf nb ms evs) :
+    decodeEvents nb v0 evs = .ok ((annotate (stream 0 0 evs)).offs.map (noteOfOff nb v0)) :=
+  decodeEvents_canonicalB nb ms v0 true evs hcanon
+
 /-! ### the discrete half -/
 
-/-- **discrete half**: extraction from the rendered and re-quantized notes of a canonical event list returns the
-event list.  `g`: the float half (times ↔ steps); `hqn`: the quantized sequence holds exactly the notes
-`_to_sequence` adds (`decodeEvents`), each with `start_step +` its steps — in any storage order. -/
-theorem perfEvents_roundtrip {R : Rat → Rat} {c : RenderCfg} {q : Rat → Int} {S : Int}
-    (nb ms v0 : Int) (evs : List PEvent) (hcanon : CanonicalPerf nb ms evs)
-    (hnb0 : 0 ≤ nb)
-    (g : Grid (stepTimeR R c.sigma c.sst) q S (shiftSum evs + 1)) (hS : 0 ≤ S)
-    (filt : Option Int) (hfilt : filt = none ∨ filt = some c.instrument) :
-    ∃ D, decodeEvents nb v0 evs = .ok D ∧ (∀ r ∈ D, r.inB (shiftSum evs + 1)) ∧
-      ∀ qs : NoteSeq, qs.notes.Perm (D.map (qnote R c S)) → perfEvents qs S nb ms filt = .ok evs := by
-  obtain ⟨hms, hvalid, hlay, acc⟩ := accepted_of_canonical nb ms evs hcanon
+/-- **discrete half, given the first sort**: if `sorted(notes)` of the quantized sequence is the list of rendered
+notes in NOTE_ON order, extraction returns the event list -/
+theorem perfEvents_of_sorted {R : Rat → Rat} {c : RenderCfg} {S : Int}
+    (nb ms v0 : Int) (strict : Bool) (evs : List PEvent) (hcanon : CanonicalPerfB nb ms strict evs = true)
+    (hnb0 : 0 ≤ nb) (filt : Option Int) (hfilt : filt = none ∨ filt = some c.instrument)
+    (qs : NoteSeq)
+    (hmem : ∀ n ∈ qs.notes, n ∈ ((annotate (stream 0 0 evs)).offs.map (noteOfOff nb v0)).map (qnote R c S))
+    (hsort : qs.notes.mergeSort timePitchLe =
+      ((List.range (annotate (stream 0 0 evs)).nOn).map (noteAt nb v0 (annotate (stream 0 0 evs)))).map (qnote R c S)) :
+    perfEvents qs S nb ms filt = .ok evs := by
+  obtain ⟨hms, hvalid, hlay, acc⟩ := accepted_of_canonicalB nb ms strict evs hcanon
   have hkinds : ∀ x ∈ evs, (∀ v, x ≠ PEvent.duration v) ∧ (nb = 0 → ∀ b, x ≠ PEvent.velocity b) := by
     intro x hx
     rw [← hlay] at hx
@@ -204,19 +214,12 @@ theorem perfEvents_roundtrip {R : Rat → Rat} {c : RenderCfg} {q : Rat → Int}
     (fun e he => (stream_values evs 0 0 hvalid e he).2.2.1) ⟨0, [], [], true⟩ (by rw [← annotate_eq]; exact acc.ok)
   rw [← annotate_eq] at hstream
   simp only [List.map_nil, List.nil_append] at hstream
-  have hdec := decodeEvents_annot nb v0 evs hvalid (fun x hx => (hkinds x hx).1)
-    (fun h0 x hx => (hkinds x hx).2 h0) acc.ok acc.closed acc.pos
-  refine ⟨_, hdec, ?_, ?_⟩
-  · intro r hr
-    obtain ⟨a, ha, rfl⟩ := List.mem_map.mp hr
-    exact acc.inB a ha
-  intro qs hqn
   -- the selected and sorted notes
   have hsel : selectNotes qs S filt = qs.notes := by
     unfold selectNotes
     rw [List.filter_eq_self]
     intro n hn
-    have hn := hqn.mem_iff.mp hn
+    have hn := hmem n hn
     obtain ⟨r, hr, rfl⟩ := List.mem_map.mp hn
     obtain ⟨a, ha, rfl⟩ := List.mem_map.mp hr
     have h0 := (acc.inB (v0 := v0) a ha).1
@@ -231,7 +234,7 @@ theorem perfEvents_roundtrip {R : Rat → Rat} {c : RenderCfg} {q : Rat → Int}
       ((List.range (annotate (stream 0 0 evs)).nOn).map (noteAt nb v0 (annotate (stream 0 0 evs)))).map (qnote R c S) := by
     unfold sortedNotes
     rw [hsel]
-    exact sortedNotes_accepted acc g qs.notes hqn
+    exact hsort
   -- the loop
   have hb0 : nb = 0 → ∀ a ∈ (annotate (stream 0 0 evs)).out, a.isOff = false → a.bin = 0 := by
     intro h0 a ha haoff
@@ -264,5 +267,24 @@ theorem perfEvents_roundtrip {R : Rat → Rat} {c : RenderCfg} {q : Rat → Int}
   have := emit_shift nb ms S (stream 0 0 evs) 0 0
   rw [Int.zero_add] at this
   rw [this, hlay]
+
+/-- **discrete half**: extraction from the rendered and re-quantized notes of a canonical event list returns the
+event list.  `g`: the float half (times ↔ steps); `hqn`: the quantized sequence holds exactly the notes
+`_to_sequence` adds (`decodeEvents`), each with `start_step +` its steps — in any storage order. -/
+theorem perfEvents_roundtrip {R : Rat → Rat} {c : RenderCfg} {q : Rat → Int} {S : Int}
+    (nb ms v0 : Int) (evs : List PEvent) (hcanon : CanonicalPerf nb ms evs)
+    (hnb0 : 0 ≤ nb)
+    (g : Grid (stepTimeR R c.sigma c.sst) q S (shiftSum evs + 1))
+    (filt : Option Int) (hfilt : filt = none ∨ filt = some c.instrument) :
+    ∃ D, decodeEvents nb v0 evs = .ok D ∧ (∀ r ∈ D, r.inB (shiftSum evs + 1)) ∧
+      ∀ qs : NoteSeq, qs.notes.Perm (D.map (qnote R c S)) → perfEvents qs S nb ms filt = .ok evs := by
+  obtain ⟨_, _, _, acc⟩ := accepted_of_canonical nb ms evs hcanon
+  refine ⟨_, decodeEvents_canonical nb ms v0 evs hcanon, ?_, ?_⟩
+  · intro r hr
+    obtain ⟨a, ha, rfl⟩ := List.mem_map.mp hr
+    exact acc.inB a ha
+  intro qs hqn
+  exact perfEvents_of_sorted nb ms v0 true evs hcanon hnb0 filt hfilt qs (fun n hn => hqn.mem_iff.mp hn)
+    (sortedNotes_accepted acc g qs.notes hqn)
 
 end NSV.C06P
